@@ -14,7 +14,7 @@ from gemato.find_top_level import find_top_level_manifest
 
 from .. import grammar as G
 from ..common import call, mk_result, viol, internal_violations
-from ..model import psw
+from ..model import psw, m_find, dev_of_rel as dev_of, MANIFEST_NAMES as NAMES
 from ..oracles import describe, write_violations
 from ..seam import Seam, orig as _o
 from ..world import World
@@ -31,7 +31,6 @@ PLAN = {'quick': {'n': 4000, 'budget_s': 50, 'block': 50},
 ASSUMPTIONS = ['when a plain and a compressed Manifest exist in the same directory either may be named (statement silent)',
                'no error faults: the statement says nothing about unreadable Manifests during discovery']
 
-NAMES = ['Manifest', 'Manifest.gz', 'Manifest.bz2', 'Manifest.lzma', 'Manifest.xz']
 
 
 def generate(rng, tier, idx):
@@ -82,48 +81,6 @@ def generate(rng, tier, idx):
                     'allow_xdev': rng.random() < 0.5})
     return {'prop': ID, 'order_key': '%016x' % rng.getrandbits(64), 'tree': tree,
             'manifests': manifests, 'mounts': mounts, 'ops': ops}
-
-
-def dev_of(mounts, rel, default=1001):
-    best, bl = default, -1
-    for m, dev in mounts.items():
-        if (rel == m or rel.startswith(m + '/')) and len(m) > bl:
-            best, bl = dev, len(m)
-    return best
-
-
-def m_find(base, mounts, start, allow_compressed, allow_xdev):
-    """Returns (set of acceptable answers as base-relative paths or {None})."""
-    names = NAMES if allow_compressed else NAMES[:1]
-    cur = start
-    odev = dev_of(mounts, cur if cur else '.')
-    last = {None}
-    while True:
-        if dev_of(mounts, cur if cur else '.') != odev and not allow_xdev:
-            break
-        present = [n for n in names if os.path.lexists(os.path.join(base, cur, n))]
-        if present:
-            # the reader takes the first present name; the statement leaves the
-            # choice open, so the decision (ignore / boundary) is evaluated for
-            # the first and both names are acceptable answers if it is accepted
-            n = present[0]
-            rel = (cur + '/' if cur else '') + n
-            if dev_of(mounts, rel) != odev and not allow_xdev:
-                return last
-            with _o['open'](os.path.join(base, rel), 'rb') as f:
-                ents = G.parse(G.decompress(f.read(), G.comp_of(n)).decode('utf8'))
-            relstart = os.path.relpath(start or '.', cur or '.')
-            if relstart == '.':
-                relstart = ''
-            if relstart and any(e['tag'] == 'IGNORE' and psw(relstart, e['path']) for e in ents):
-                return last
-            last = {rel}
-            if len(present) > 1:
-                last = {(cur + '/' if cur else '') + p for p in present}
-        if cur == '':
-            break
-        cur = os.path.dirname(cur)
-    return last
 
 
 def execute(sc):
